@@ -90,7 +90,7 @@ def run_case(case):
     # (ii) Heun validity predicate on each method's own output
     for tag, d in (("mft", d1), ("cdwf", d2)):
         res = mfgen.heun_residual(mf, np.array(d.times), [np.array(x.states) for x in d.system_dynamics],
-                                  np.array(d.fields), dt)
+                                  np.array(d.fields, dtype=complex).reshape(-1), dt)
         out.metric("heun/" + tag + "/tol", res / (1e-10 * amax))
         if not res <= 1e-10 * amax:
             out.fail("heun/" + tag, f"Heun residual {res:.3e}")
